@@ -23,16 +23,21 @@ IsEv(e) == l <= Len(Rec) /\ Rec[l].ev = e /\ l' = l + 1
 
 Comps == {"hdr", "q", "an", "ns", "ar", "iter", "cname", "opt", "selfans", "sole", "xfr"}
 
-SlOk(exp, obs) ==
+\* per component the observation is what the property requires (idl) or,
+\* for an open deviation, what the code does today (exp); a repaired
+\* defect is therefore accepted without touching the list of findings
+SlOk(exp, idl, obs) ==
   /\ Len(exp) = Len(obs)
-  /\ \A i \in 1..Len(exp) : exp[i] = obs[i] \/ (exp[i] = W!SlFinite /\ obs[i] >= 0)
+  /\ \A i \in 1..Len(exp) : \/ exp[i] = obs[i]
+                             \/ idl[i] = obs[i]
+                             \/ (idl[i] = W!SlFinite /\ obs[i] >= 0)
 
-Matches(exp, obs) ==
+Matches(exp, idl, obs) ==
   IF exp.short THEN obs = [short |-> TRUE]
   ELSE /\ DOMAIN obs = DOMAIN exp
        /\ obs.short = FALSE
-       /\ \A c \in Comps : obs[c] = exp[c]
-       /\ SlOk(exp.sl, obs.sl)
+       /\ \A c \in Comps : obs[c] = exp[c] \/ obs[c] = idl[c]
+       /\ SlOk(exp.sl, idl.sl, obs.sl)
 
 TInit == l = 1 /\ used = {}
 
@@ -40,13 +45,14 @@ T_Read ==
   /\ IsEv("read")
   /\ LET exp == W!Projection(Rec[l].m, Rec[l].starts)
          idl == Ideal!Projection(Rec[l].m, Rec[l].starts)
-     IN /\ Matches(exp, Rec[l].proj)
+         obs == Rec[l].proj
+     IN /\ Matches(exp, idl, obs)
         /\ used' = used \cup
              (IF exp.short THEN {}
-              ELSE (IF exp.cname # idl.cname THEN {"D_cname_ancount_overflow"} ELSE {})
-                   \cup (IF exp.xfr # idl.xfr THEN {"D_xfr_unreachable_qtype"} ELSE {})
-                   \cup (IF \E i \in 1..Len(exp.sl) : exp.sl[i] = W!SlHang THEN {"D_slice_iter_selfptr"} ELSE {})
-                   \cup (IF \E i \in 1..Len(exp.sl) : exp.sl[i] = W!SlUnbounded THEN {"D_slice_iter_loop"} ELSE {}))
+              ELSE (IF obs.cname # idl.cname THEN {"D_cname_ancount_overflow"} ELSE {})
+                   \cup (IF obs.xfr # idl.xfr THEN {"D_xfr_unreachable_qtype"} ELSE {})
+                   \cup (IF \E i \in 1..Len(obs.sl) : obs.sl[i] = W!SlHang THEN {"D_slice_iter_selfptr"} ELSE {})
+                   \cup (IF \E i \in 1..Len(obs.sl) : obs.sl[i] = W!SlUnbounded THEN {"D_slice_iter_loop"} ELSE {}))
 
 T_Total ==
   /\ IsEv("total")
